@@ -23,7 +23,7 @@ if VERIF not in sys.path:
 from pbt import core  # noqa: E402
 from pbt.core import Violation, HarnessError, Ctx  # noqa: E402
 
-WATCHDOG_S = {"quick": 15 * 60, "thorough": 60 * 60}
+WATCHDOG_S = {"quick": 20 * 60, "thorough": 150 * 60}  # generous: a busy machine must not turn a healthy check into exit 2
 MAX_SAMPLES = 3
 HEALTH_SCALE = 0.5
 # per-property multiplier of the per-shard thorough budgets declared in the modules, chosen from measured wall times so
